@@ -303,6 +303,30 @@ def main(tier, seed, replay=None):
         "Error": {"type": "object", "properties": {"kind": {"oneOf": [{"$ref": "#/components/schemas/Error"}, {"type": "string"}]}}}}}}, ["witness:recursive-inline-union"]))
     cases.append(({"openapi": "3.1.0", "info": {"title": "t", "version": "1"}, "paths": {}, "components": {"schemas": {
         "Self": {"type": "object", "properties": {"crate": {"type": "string"}}}}}}, ["keyword-name:Self"]))
+    okr0 = {"200": {"description": "ok"}}
+    # one status, several media types of one category whose schemas are wrapper types (variant names derive from the Rust type)
+    mm = lambda sch: {"schema": sch}
+    cases.append(({"openapi": "3.1.0", "info": {"title": "t", "version": "1"}, "paths": {"/x": {"get": {"operationId": "get_x", "responses": {"200": {"description": "ok", "content": {
+        "application/json": mm({"type": "array", "items": {"type": "string"}}), "application/vnd.api+json": mm({"$ref": "#/components/schemas/Doc"}),
+        "application/problem+json": mm({"type": "object", "additionalProperties": {"type": "integer"}}), "text/plain": mm({"type": "string"}), "text/csv": mm({"type": "array", "items": {"type": "integer"}})}}}}}},
+        "components": {"schemas": {"Doc": {"type": "object", "properties": {"k": {"type": ["string", "null"]}}}}}}, ["ops:same-category-media-types"]))
+    # undeclared template variables whose names are not identifiers and coincide with parameters in other locations
+    cases.append(({"openapi": "3.1.0", "info": {"title": "t", "version": "1"}, "paths": {
+        "/items/{item-id}": {"get": {"operationId": "get_item", "parameters": [{"name": "item-id", "in": "query", "schema": {"type": "string"}}], "responses": okr0}},
+        "/h/{X-Key}/{type}": {"parameters": [{"name": "X-Key", "in": "header", "schema": {"type": "string"}}],
+                              "get": {"operationId": "get_h", "parameters": [{"name": "type", "in": "query", "schema": {"type": "integer"}}], "responses": okr0}}},
+        "components": {"schemas": {}}}, ["ops:undeclared-path-variables-named-like-other-parameters"]))
+    # a deep acyclic schema graph with exponentially many reference paths (40 tiers of 2 schemas, each referring to both of the next tier)
+    tiers = 40
+    dsch = {}
+    for t in range(tiers):
+        for k in (0, 1):
+            props = {"v": {"type": "string"}}
+            if t + 1 < tiers:
+                props.update({"l": {"$ref": f"#/components/schemas/T{t + 1}x0"}, "r": {"$ref": f"#/components/schemas/T{t + 1}x1"}})
+            dsch[f"T{t}x{k}"] = {"type": "object", "properties": props}
+    cases.append(({"openapi": "3.1.0", "info": {"title": "t", "version": "1"}, "paths": {"/top": {"get": {"operationId": "get_top", "responses": {"200": {"description": "ok", "content": {"application/json": {"schema": {"$ref": "#/components/schemas/T0x0"}}}}}}}},
+                   "components": {"schemas": dsch}}, ["ops:deep-diamond-graph"]))
     # small fixed specs around degenerate operation ids (empty / separator-only ids next to ids that share affixes)
     okr = {"200": {"description": "ok"}}
     for ids in (["first_normal_op", ""], ["", "first_normal_op"], ["list_items_op", "get_items_op", ""], ["a_b", "_", "-"], ["", ""], ["x", "x_", "_x"]):
@@ -322,7 +346,8 @@ def main(tier, seed, replay=None):
         json.dump(spec, open(sp, "w"))
         outp = os.path.join(base, "out" if mode.endswith("-mod") else "out.rs")
         t0 = time.time()
-        extra = ["--all-schemas"] if (ci + MODES.index(mode)) % 2 == 0 or tags != ["unmutated"] else []
+        # fixed specs tagged ops: have operations of their own and run with the default (reachability-based) scope
+        extra = ["--all-schemas"] if ((ci + MODES.index(mode)) % 2 == 0 or tags != ["unmutated"]) and not tags[0].startswith("ops:") else []
         rc, txt = vlib.oas(["generate", mode, "-i", sp, "-o", outp, "-q"] + extra, timeout=TIMEOUT)
         dt = time.time() - t0
         rc2, txt2 = vlib.oas(["list", "operations", "-i", sp, "--color", "never"], timeout=TIMEOUT)
